@@ -61,60 +61,60 @@ func checkC13(r *Run) int {
 		}
 	}
 	evaluate := func(cases []*space.Case, modName string) {
-	built, bin, err := r.generate(cases)
-	if err != nil {
-		r.HarnessErrs = append(r.HarnessErrs, err.Error())
-		return
-	}
-	r.phase("generate+build")
-	// group membership for compile verdicts
-	okSame := map[string]bool{}
-	for _, b := range built {
-		if b.Variant == "same" && b.CompileErr == "" && b.Skip == "" {
-			okSame[b.Group] = true
+		built, bin, err := r.generate(cases)
+		if err != nil {
+			r.HarnessErrs = append(r.HarnessErrs, err.Error())
+			return
 		}
-	}
-	for _, b := range built {
-		if b.Variant == "same" || b.Skip != "" {
-			continue
-		}
-		r.Transitions++
-		shape := caseShape(b.Case) + "/" + b.Variant
-		if b.CompileErr != "" {
-			if !okSame[b.Group] {
-				r.Outcomes["both-variants-fail-to-compile"]++
-				continue // the same-package variant does not compile either: C01's finding, not a layout problem
+		r.phase("generate+build")
+		// group membership for compile verdicts
+		okSame := map[string]bool{}
+		for _, b := range built {
+			if b.Variant == "same" && b.CompileErr == "" && b.Skip == "" {
+				okSame[b.Group] = true
 			}
-			r.addFinding(&Finding{Property: r.ID, Kind: "separate-package-does-not-compile", Shape: shape, Label: b.Label, Msg: firstLines(b.CompileErr, 6), Count: 1, Witness: witnessOf(b)})
-			continue
 		}
-		r.Outcomes["separate-compiles"]++
-		src := b.TF.Content()
-		imp := modName + "/cases/" + b.ID + "/"
-		if b.StructImport != "" {
-			imp += b.StructImport
-		} else {
-			imp += "structs"
+		for _, b := range built {
+			if b.Variant == "same" || b.Skip != "" {
+				continue
+			}
+			r.Transitions++
+			shape := caseShape(b.Case) + "/" + b.Variant
+			if b.CompileErr != "" {
+				if !okSame[b.Group] {
+					r.Outcomes["both-variants-fail-to-compile"]++
+					continue // the same-package variant does not compile either: C01's finding, not a layout problem
+				}
+				r.addFinding(&Finding{Property: r.ID, Kind: "separate-package-does-not-compile", Shape: shape, Label: b.Label, Msg: firstLines(b.CompileErr, 6), Count: 1, Witness: witnessOf(b)})
+				continue
+			}
+			r.Outcomes["separate-compiles"]++
+			src := b.TF.Content()
+			imp := modName + "/cases/" + b.ID + "/"
+			if b.StructImport != "" {
+				imp += b.StructImport
+			} else {
+				imp += "structs"
+			}
+			if !strings.Contains(src, " \""+imp+"\"") {
+				r.addFinding(&Finding{Property: r.ID, Kind: "struct-package-not-imported-at-configured-path", Shape: shape, Label: b.Label, Msg: "generated file does not import " + imp + " under a qualifier", Count: 1, Witness: witnessOf(b)})
+			}
+			if !strings.HasPrefix(strings.TrimSpace(afterLicense(src)), "package tfschema") {
+				// the package clause is decided by C01; here only the target package
+				r.addFinding(&Finding{Property: r.ID, Kind: "wrong-target-package", Shape: shape, Label: b.Label, Msg: "generated file does not declare package tfschema", Count: 1, Witness: witnessOf(b)})
+			}
 		}
-		if !strings.Contains(src, " \""+imp+"\"") {
-			r.addFinding(&Finding{Property: r.ID, Kind: "struct-package-not-imported-at-configured-path", Shape: shape, Label: b.Label, Msg: "generated file does not import " + imp + " under a qualifier", Count: 1, Witness: witnessOf(b)})
+		lines, errs := r.Mod.RunHarness(bin, 16, []string{"--prop", "DIGEST", "--tier", "quick"}, 1200)
+		r.HarnessErrs = append(r.HarnessErrs, errs...)
+		res := r.absorb(lines)
+		r.phase("explore")
+		// reference = the same-package variant of the group
+		for _, x := range res {
+			if x.Variant == "same" {
+				x.Label = " " + x.Label // sorts first: becomes the reference
+			}
 		}
-		if !strings.HasPrefix(strings.TrimSpace(afterLicense(src)), "package tfschema") {
-			// the package clause is decided by C01; here only the target package
-			r.addFinding(&Finding{Property: r.ID, Kind: "wrong-target-package", Shape: shape, Label: b.Label, Msg: "generated file does not declare package tfschema", Count: 1, Witness: witnessOf(b)})
-		}
-	}
-	lines, errs := r.Mod.RunHarness(bin, 16, []string{"--prop", "DIGEST", "--tier", "quick"}, 1200)
-	r.HarnessErrs = append(r.HarnessErrs, errs...)
-	res := r.absorb(lines)
-	r.phase("explore")
-	// reference = the same-package variant of the group
-	for _, x := range res {
-		if x.Variant == "same" {
-			x.Label = " " + x.Label // sorts first: becomes the reference
-		}
-	}
-	compareDigests(r, res, func(x *explorer.Result) string { return x.Group + "/" + x.Root }, "separate-package-variant-behaves-differently")
+		compareDigests(r, res, func(x *explorer.Result) string { return x.Group + "/" + x.Root }, "separate-package-variant-behaves-differently")
 	}
 	evaluate(cases, "scratch")
 	// the same comparison in a module whose path starts with a digit (the struct package qualifier
